@@ -111,8 +111,24 @@ func cmdCheck(args []string) int {
 			}
 		}
 		pc.Invariants = keep
+		for _, g := range pc.Guards {
+			g.Enforced = g.Props == "" || propListed(g.Props, r.Prop)
+		}
+		for _, fcn := range pc.Funcs {
+			keepC := func(cs []*Clause) []*Clause {
+				var out []*Clause
+				for _, c := range cs {
+					if c.Props == "" || propListed(c.Props, r.Prop) {
+						out = append(out, c)
+					}
+				}
+				return out
+			}
+			fcn.Requires, fcn.Ensures = keepC(fcn.Requires), keepC(fcn.Ensures)
+		}
 	}
 	r.Eng = &Engine{prog: prog, frame: BuildFrame(prog)}
+	r.Eng.buildGuards()
 	r.logf("loaded %d packages, frame: %d functions, %d escaping; %v", len(prog.Pkgs), len(r.Eng.frame.nodes), len(r.Eng.frame.esc), time.Since(r.Start))
 	r.Findings, err = LoadFindings(filepath.Join(*out, "known_findings.txt"))
 	if err != nil {
